@@ -14,6 +14,9 @@ CHECKS["C01"] = ("exploration", "E1", "bounded exhaustive enumeration of (operat
 CHECKS["C02"] = ("exploration", "E1", "bounded exhaustive enumeration of operand tuples and (container, key) pairs against exact big.Rat arithmetic and plain Go collections",
   "All ordered pairs of a number alphabet spanning precisions/constructors/magnitudes x 9 binary and 2 unary numeric operations compared with exact rational arithmetic under an explicit precision rule; boolean truth tables; every list/set/map/tuple/object built from every member sequence up to length 2 (3 thorough) x every key of a key alphabet: Index/HasIndex/GetAttr/HasElement/Length/LengthInt/ElementIterator return exactly the constructor's members, Index succeeds iff HasIndex is True, wrong-typed operands are rejected.",
   "trusted: big.Rat reference, precision rule stated in evidence assumptions; unspecified zones (0/0, Inf-Inf, x mod 0, modulo with infinities, decimal-text-equal numbers) are not compared", "§3 C02")
+CHECKS["C03"] = ("model_checking", "E2", "explicit-state breadth-first search over ValueSet operation histories with a lock-step model set, plus exhaustive pair/triple enumeration against a documented-equality reference",
+  "Pairs and same-type triples of a pool (numbers at several precisions incl. decimal-text-equal and hash-colliding ones, normalising strings, nulls, structures, capsules, refined unknowns): RawEquals = documented structural equality (hence an equivalence), Equals symmetric, null=null, Equals=RawEquals on known same-type values, numeric trichotomy, equal => same Hash. BFS over all histories (depth 4, thorough 5) of Add/Remove/Copy/swap/Union/Intersection/Subtract/SymmetricDifference on two real ValueSets over colliding 6-element alphabets with a model set in lock-step: no duplicates, membership/length/values = model, set value equals SetVal(model), copies do not interfere; every permutation of constructor inputs gives RawEquals sets with identical iteration order.",
+  "trusted: documented number equality re-implemented in the checker; states keyed on full bucket dump (len, cap, slack) + model; dedup per level-1 subtree", "§3 C03")
 NOT_YET = {}
 props = [json.loads(l) for l in open('/verif/properties.jsonl')]
 checks = []
